@@ -2,7 +2,7 @@ package sshcauth
 
 import (
 	"crypto"
-	"crypto/rand"
+	crand "crypto/rand"
 	"crypto/x509"
 	"encoding/pem"
 	"fmt"
@@ -97,7 +97,7 @@ func (k *poolKey) certificate(bad bool) *ssh.Certificate {
 			ValidAfter: 0, ValidBefore: ssh.CertTimeInfinity,
 			Permissions: ssh.Permissions{Extensions: map[string]string{"permit-pty": ""}},
 		}
-		if err := c.SignCert(rand.Reader, ca.def); err != nil {
+		if err := c.SignCert(crand.Reader, ca.def); err != nil {
 			panic(err)
 		}
 		k.cert[i] = c
